@@ -293,6 +293,8 @@ def pretty(ops, upto=None):
 
 
 def show_obs(ob):
+    if len(ob) < 13:
+        return {"malformed": ob}
     e, w, r = ob[:3]
     has = ob[3:8]
     val = ob[8:13]
@@ -473,7 +475,8 @@ def run(chk):
     if not chk.quick():
         runs.append((SIM_CFG, {"simulate": SIM_TRACES, "depth": 70}))
     for cfg, kw in runs:
-        r = chk.tlc("Context_MC", cfg, timeout=2400, workers=WORKERS, coverage=False, heap="8g", **kw)
+        # -simulate with ONE worker: the behaviours are then a function of the seed (R5)
+        r = chk.tlc("Context_MC", cfg, timeout=2400, workers=1 if kw else WORKERS, coverage=False, heap="8g", **kw)
         for name in r.violated:
             chk.violation("C13.design." + name, "design:%s" % name,
                           "TLC: invariant %s violated in Context_MC (%s)" % (name, cfg))
@@ -535,7 +538,7 @@ def run(chk):
 
 WORKERS = 4         # TLC workers of the model-checking runs (registered checks may use 16)
 CHUNKS = 4          # parallel judge processes
-SIM_TRACES = 3000
+SIM_TRACES = 2000
 
 
 def replay(chk, payload):
